@@ -28,7 +28,7 @@ Fixpoint sin_acc (b2 : I) (fuel i : nat) (t s : I) : I :=
   end.
 Definition ssin (b b2 : I) (n : nat) : I := sin_acc b2 n 0 b b.
 
-Definition NT : nat := 12.
+Definition NT : nat := 24.
 Definition itriv : I := mkI (- scaleZ) scaleZ.
 
 (* |a| <= 1 *)
